@@ -436,6 +436,11 @@ void reb_integrator_mercurius_part1(struct reb_simulation* r){
     if (rim->N_allocated_dcrit<N){
         // Need to safe these arrays in Simulationarchive
         rim->dcrit              = realloc(rim->dcrit, sizeof(double)*N);
+        for (unsigned int i=rim->N_allocated_dcrit;i<N;i++){
+            // Not yet known. The synchronization below (safe_mode=0) may evaluate the switching function before
+            // the critical radii are recalculated: 0 means "not in a close encounter".
+            rim->dcrit[i] = 0.;
+        }
         rim->N_allocated_dcrit = N;
         // If particle number increased (or this is the first step), need to calculate critical radii
         rim->recalculate_r_crit_this_timestep        = 1;
